@@ -34,6 +34,7 @@ class Lock:
 # ---------------------------------------------------------------- step 2: regenerate Gen/*.lean
 def regen():
     """returns dict module -> list of (target, message) failures"""
+    sh([sys.executable, os.path.join(VERIF, 'tools', 'mkmain.py')])
     r = sh([sys.executable, os.path.join(VERIF, 'xlate', 'gen.py')])
     st = os.path.join(BUILD, 'xlate', 'xlate_status.json')
     if r.returncode not in (0, 2) or not os.path.exists(st):
